@@ -275,21 +275,28 @@ def _ref(prog):
 
 
 class Minimizer(object):
-    def __init__(self, d, want, budget=400):
+    """Shrinks a failing program while parse_file keeps failing in the same class (mismatch / runaway / died) and
+    the candidate stays inside the unambiguous subset (the model accepts it and its two policies agree).  The
+    model is the reference during the search; the final witness is confirmed against gcc by the caller.
+    A candidate may not exercise expansion features the starting program did not exercise, so the witness does
+    not drift to constructs the generator never produced there (e.g. empty arguments made by deleting tokens)."""
+
+    def __init__(self, d, want, allowed, budget=260):
         self.d = d
         self.want = want          # verdict class to preserve
+        self.allowed = set(allowed) | GENERIC
         self.tests = 0
         self.budget = budget
         self.cache = {}
 
-    def fails(self, prog):
+    def fails(self, prog, free=False):
         key = json.dumps(prog, sort_keys=True)
         if key in self.cache:
             return self.cache[key]
         res = False
         if self.tests < self.budget:
-            exp, _ = _ref(prog)
-            if exp is not None:
+            exp, feats = _ref(prog)
+            if exp is not None and (free or feats <= self.allowed):
                 self.tests += 1
                 v, _o = judge(prog, self.d, exp, timeout=3)
                 res = _same_class(v, self.want)
@@ -306,11 +313,13 @@ class Minimizer(object):
             s = set(sub) | set(keep)
             return {"units": [u for i, u in enumerate(units) if i in s]}
 
-        if idx and self.fails(build([])):
+        if not idx:
+            return prog
+        if self.fails(build([])):
             return build([])
-        best = core.ddmin(idx, lambda sub: self.fails(build(sub)), max_tests=120) if len(idx) >= 2 else idx
-        if len(idx) == 1 and self.fails(build([])):
-            best = []
+        if len(idx) == 1:
+            return prog
+        best = core.ddmin(idx, lambda sub: self.fails(build(sub)), max_tests=60)
         return build(best)
 
     @staticmethod
@@ -339,45 +348,87 @@ class Minimizer(object):
             prev = t
         return s
 
-    def shrink_text(self, prog, ui, head, text):
-        """ddmin over the tokens of `text` (unit ui = head + text)"""
+    @staticmethod
+    def head_of(u):
+        """-> (head, body) of a unit's text: the part token-level passes must not touch, and the rest"""
+        t = u["t"]
+        if u["k"] == "use":
+            return "", t
+        if u["k"] == "D":
+            name, eq, body = t.partition("=")
+            return name + "=", body
+        if u["k"] == "def":
+            m = re.match(r"#define\s+\w+(\([^)]*\))?[ \t]*", t)
+            if m:
+                return m.group().rstrip() + " ", t[m.end():]
+        return None, None
+
+    def with_text(self, prog, ui, text):
+        u = dict(prog["units"][ui])
+        u["t"] = text
+        units = list(prog["units"])
+        units[ui] = u
+        return {"units": units}
+
+    def shrink_text(self, prog, ui):
+        """ddmin over the tokens of one unit"""
+        head, text = self.head_of(prog["units"][ui])
+        if head is None:
+            return prog
         pieces = self.split(text)
 
         def build(ps):
-            u = dict(prog["units"][ui])
-            u["t"] = head + self.join(ps)
-            units = list(prog["units"])
-            units[ui] = u
-            return {"units": units}
+            return self.with_text(prog, ui, head + self.join(ps))
 
-        # first: normalise white space
         norm = [((" " if ws else ""), t) for ws, t in pieces]
         if norm != pieces and self.fails(build(norm)):
             pieces = norm
         if len(pieces) >= 2:
-            pieces = core.ddmin(pieces, lambda ps: self.fails(build(ps)), max_tests=150)
+            pieces = core.ddmin(pieces, lambda ps: self.fails(build(ps)), max_tests=70)
         if len(pieces) == 1 and self.fails(build([])):
             pieces = []
         return build(pieces)
 
-    def run(self, prog, use_index):
-        prog = self.units(prog, {use_index})
-        for _round in range(2):
+    def normalise(self, prog):
+        """rewrites that remove incidental features when the failure does not need them"""
+        # 1. command-line definitions -> #define at the top of the file
+        for ui, u in enumerate(prog["units"]):
+            if u["k"] == "D":
+                name, eq, body = u["t"].partition("=")
+                cand = {"units": [x for i, x in enumerate(prog["units"]) if i != ui]}
+                first = max([i for i, x in enumerate(cand["units"]) if x["k"] == "D"] + [-1]) + 1
+                cand["units"].insert(first, {"k": "def", "t": "#define " + name + " " + body})
+                if self.fails(cand, free=True):
+                    return self.normalise(cand)
+        # 2. empty arguments -> the identifier a ; 3. variadic -> fixed parameter list
+        for ui, u in enumerate(prog["units"]):
+            head, text = self.head_of(u)
+            if head is None:
+                continue
+            pieces = self.split(text)
+            for i in range(len(pieces) - 1):
+                if pieces[i][1] in ("(", ",") and pieces[i + 1][1] in (",", ")"):
+                    cand = self.with_text(prog, ui, head + self.join(pieces[:i + 1] + [("", "a")] + pieces[i + 1:]))
+                    if self.fails(cand):
+                        return self.normalise(cand)
+            if u["k"] in ("def", "D") and "..." in head:
+                h2 = re.sub(r"\s*,?\s*\.\.\.\s*", "", head, count=1)
+                cand = self.with_text(prog, ui, h2 + text)
+                if self.fails(cand):
+                    return self.normalise(cand)
+        return prog
+
+    def run(self, prog):
+        uses = {i for i, u in enumerate(prog["units"]) if u["k"] == "use"}
+        keep = uses if len(uses) == 1 else set()
+        prog = self.units(prog, keep)
+        for _round in range(3):
             before = json.dumps(prog)
-            for ui, u in enumerate(prog["units"]):
-                t = u["t"]
-                if u["k"] == "use":
-                    prog = self.shrink_text(prog, ui, "", t)
-                elif u["k"] == "D":
-                    name, eq, body = t.partition("=")
-                    prog = self.shrink_text(prog, ui, name + "=", body)
-                elif u["k"] == "def":
-                    m = re.match(r"#define\s+\w+(\([^)]*\))?[ \t]*", t)
-                    if m:
-                        head = m.group().rstrip() + " "
-                        prog = self.shrink_text(prog, ui, head, t[m.end():])
+            for ui in range(len(prog["units"])):
+                prog = self.shrink_text(prog, ui)
+            prog = self.normalise(prog)
             uses = [i for i, u in enumerate(prog["units"]) if u["k"] == "use"]
-            prog = self.units(prog, set(uses[:1]))
+            prog = self.units(prog, set(uses) if len(uses) == 1 else set())
             if json.dumps(prog) == before:
                 break
         return prog
@@ -506,17 +557,17 @@ def _analyse(res, prog, d, verdict, o, expected):
     seen = set()
     done = 0
     for sub, v in failing:
-        if done >= 4:
+        if done >= 2:
             res.count("mismatches_not_minimised", 1)
             continue
         done += 1
-        uses = [i for i, u in enumerate(sub["units"]) if u["k"] == "use"]
-        mz = Minimizer(d, v)
+        _e, f0 = _ref(sub)
+        mz = Minimizer(d, v, f0 or (), budget=60 if v == "died" else 260)
         if not mz.fails(sub):
             # not reproducible in isolation (should not happen)
             res.count("unreproducible", 1)
             continue
-        small = mz.run(sub, uses[0] if len(uses) == 1 else -1)
+        small = mz.run(sub)
         res.count("minimiser_tests", mz.tests)
         exp, feats = _ref(small)
         # confirm the minimal witness against the authority
